@@ -35,3 +35,6 @@ claim("C05", "model_checking", "explicit-state BFS to a fixpoint over the real P
 claim("C17", "model_checking", "bounded-exhaustive metamorphic enumeration: every hierarchical bracketing of every small segment list on the real merger, results compared with each other",
       "For every list of 3 (<=2 docs each) and 4 (<=1 doc each) segments over the kinds alphabet, every deletion set and every order-preserving hierarchical grouping, with deletions applied early or translated through DocumentNumbers() and applied late, the loaded results are pairwise observationally identical including statistics; merge([s]) is the identity for built and merged s. No reference model is involved, so the check also guards the model used by C02.",
       "Trusted base: harness observer, Go toolchain, roaring/vellum/zstd. Bounded: k<=4 segments, <=2 docs per segment.", "DESIGN.md 5 C17", E1 + " / " + E2)
+claim("C13", "model_checking", "explicit-state BFS over the real private state of the reused PostingsList/PostingsIterator slots; every lookup compared with fresh objects and the model",
+      "Over an alphabet of ~1.7k (quick) lookups - segment x field (with terms / without / unknown) x term (general multi-chunk / 1-hit / absent) x exclusion x flags x how much of the iterator is consumed x which preallocated objects are passed - every reuse history of length <=3 (quick) or to a fixpoint/state cap (thorough) is executed on the real code, states de-duplicated by the dump of the slots' private fields; each lookup's complete result must equal the same lookup with fresh objects and the model.",
+      TRUST + " vellum.Reader state inside long-lived dictionaries is not in the state key.", "DESIGN.md 5 C13", E2)
